@@ -155,3 +155,326 @@ Proof.
 Qed.
 Lemma shm_flips_length rs : length (shm_flips rs) = length rs.
 Proof. apply map_length. Qed.
+
+(* ------------------------------------------------------------------ *)
+(* C. what the DIMACS reader returns can be written back               *)
+(* ------------------------------------------------------------------ *)
+Lemma shm_digit_val_range c d : digit_val c = Some d -> is_digit c = true /\ 0 <= d <= 9.
+Proof.
+  unfold digit_val. destruct (is_digit c) eqn:E; [|discriminate]. intros H. inversion H; subst.
+  split; [reflexivity|]. unfold is_digit in E. lia.
+Qed.
+Lemma shm_digit_val_none c : digit_val c = None -> is_digit c = false.
+Proof. unfold digit_val. destruct (is_digit c); [discriminate|reflexivity]. Qed.
+
+Lemma shm_count_digits_cons c r : count_digits (c :: r) = (if is_digit c then 1 else 0) + count_digits r.
+Proof. unfold count_digits. cbn [filter]. destruct (is_digit c); cbn [length]; lia. Qed.
+Lemma shm_count_digits_nonneg s : 0 <= count_digits s.
+Proof. unfold count_digits. lia. Qed.
+
+Lemma shm_int_body_bound : forall n s acc v, (length s <= n)%nat -> 0 <= acc -> int_body acc s = Some v ->
+  acc * 10 ^ count_digits s <= v < (acc + 1) * 10 ^ count_digits s.
+Proof.
+  induction n as [|n IH]; intros s acc v Hl Ha H.
+  - destruct s; [|cbn in Hl; lia]. cbn in H. inversion H; subst. cbn. lia.
+  - destruct s as [|c r]; [cbn in H; inversion H; subst; cbn; lia|].
+    cbn [int_body] in H. rewrite shm_count_digits_cons.
+    destruct (digit_val c) as [d|] eqn:Ed.
+    + apply shm_digit_val_range in Ed as [Ec Hd]. rewrite Ec.
+      assert (Hl' : (length r <= n)%nat) by (cbn in Hl; lia).
+      pose proof (IH r (10 * acc + d) v Hl' ltac:(lia) H) as [B1 B2].
+      pose proof (shm_count_digits_nonneg r) as Hk.
+      rewrite Z.pow_add_r by lia. change (10 ^ 1) with 10.
+      assert (HP : 0 < 10 ^ count_digits r) by (apply Z.pow_pos_nonneg; lia).
+      remember (10 ^ count_digits r) as P. nia.
+    + apply shm_digit_val_none in Ed. rewrite Ed.
+      destruct (Ascii.eqb c "_"%char); [|discriminate].
+      destruct r as [|c2 r2]; [discriminate|].
+      destruct (digit_val c2) as [d|] eqn:Ed2; [|discriminate].
+      apply shm_digit_val_range in Ed2 as [Ec Hd]. rewrite shm_count_digits_cons, Ec.
+      assert (Hl' : (length r2 <= n)%nat) by (cbn in Hl; lia).
+      pose proof (IH r2 (10 * acc + d) v Hl' ltac:(lia) H) as [B1 B2].
+      pose proof (shm_count_digits_nonneg r2) as Hk.
+      replace (0 + (1 + count_digits r2)) with (1 + count_digits r2) by lia.
+      rewrite Z.pow_add_r by lia. change (10 ^ 1) with 10.
+      assert (HP : 0 < 10 ^ count_digits r2) by (apply Z.pow_pos_nonneg; lia).
+      remember (10 ^ count_digits r2) as P. nia.
+Qed.
+
+Lemma shm_parse_unsigned_bound s v : parse_unsigned s = Some v -> 0 <= v < 10 ^ count_digits s.
+Proof.
+  unfold parse_unsigned. destruct s as [|c r]; [discriminate|]. destruct (is_digit c); [|discriminate].
+  intros H. pose proof (shm_int_body_bound _ _ 0 v (le_n _) ltac:(lia) H). lia.
+Qed.
+
+(* int(token) accepts at most 4300 digits: the value can be written by str() *)
+Lemma shm_parse_int_printable s z : parse_int s = Some z -> printable z.
+Proof.
+  unfold parse_int, printable.
+  set (nb := match s with
+             | [] => (false, s)
+             | c :: r => if Ascii.eqb c "-"%char then (true, r)
+                         else if Ascii.eqb c "+"%char then (false, r) else (false, s)
+             end).
+  destruct nb as [neg body].
+  destruct (max_str_digits <? count_digits body) eqn:El; [discriminate|].
+  destruct (parse_unsigned body) as [v|] eqn:Ev; [|discriminate].
+  intros H. inversion H; subst. apply shm_parse_unsigned_bound in Ev.
+  assert (Hp : 10 ^ count_digits body <= 10 ^ max_str_digits) by (apply Z.pow_le_mono_r; lia).
+  remember (10 ^ max_str_digits) as B. remember (10 ^ count_digits body) as C.
+  destruct neg; lia.
+Qed.
+
+Lemma shm_parse_spec_printable s n m : parse_spec s = Some (n, m) -> printable n /\ printable m.
+Proof.
+  unfold parse_spec. destruct (split_ws s) as [|? [|? [|a [|b [|? ?]]]]]; try discriminate.
+  destruct (parse_int a) as [n1|] eqn:Ea; [|discriminate].
+  destruct (parse_int b) as [m1|] eqn:Eb; [|discriminate].
+  destruct ((n1 <? 0) || (m1 <? 0)); [discriminate|]. intros H. inversion H; subst.
+  split; eapply shm_parse_int_printable; eassumption.
+Qed.
+
+Lemma shm_valid_in_range n F : Forall (Forall (lit_in n)) F -> lits_in_range n F = true.
+Proof.
+  intros H. unfold lits_in_range. apply forallb_forall. intros c Hc.
+  rewrite Forall_forall in H. specialize (H c Hc). apply forallb_forall. intros l Hl.
+  rewrite Forall_forall in H. specialize (H l Hl). unfold lit_in in H.
+  apply andb_true_iff. split; [apply nonzero_spec; lia|lia].
+Qed.
+Lemma shm_in_range_valid n F : 0 <= n -> lits_in_range n F = true -> valid n F.
+Proof.
+  intros Hn H. split; [exact Hn|]. unfold lits_in_range in H. rewrite forallb_forall in H.
+  apply Forall_forall. intros c Hc. specialize (H c Hc). rewrite forallb_forall in H.
+  apply Forall_forall. intros l Hl. specialize (H l Hl). apply andb_true_iff in H as [H1 H2].
+  apply nonzero_spec in H1. unfold lit_in. lia.
+Qed.
+
+(* a formula the reader accepts: non-negative number of variables, literals in range, counts that str() can write *)
+Lemma shm_parse_ok u t N F : parse_dimacs u t = DOk N F ->
+  0 <= N /\ lits_in_range N F = true /\ printable N /\ printable (len F).
+Proof.
+  intros H. apply parse_sound_proved in H as (sl & m & _ & Hs & Hm & HN & _ & Hv).
+  apply shm_parse_spec_printable in Hs as [P1 P2]. subst m.
+  repeat split; try assumption. apply shm_valid_in_range, Hv.
+Qed.
+
+(* ------------------------------------------------------------------ *)
+(* D. the arguments handed to Shuffle are valid, for every stream      *)
+(* ------------------------------------------------------------------ *)
+Lemma shm_len_zrange a n : 0 <= n -> length (zrange a (a + n)) = Z.to_nat n.
+Proof. intros Hn. rewrite sh_length_zrange. f_equal. lia. Qed.
+
+Lemma shm_args_valid nop nov noc N M rs fl pm cp : 0 <= N -> 0 <= M ->
+  Forall2 shm_in_bound (shm_bounds nop nov noc N M) rs ->
+  shm_args nop nov noc N M rs = (fl, pm, cp) ->
+  flips_valid N fl /\ perm_valid 1 N pm /\ perm_valid 0 M cp.
+Proof.
+  intros HN HM Hf Ha. unfold shm_bounds in Hf. unfold shm_args in Ha.
+  set (A := if nop then [] else shm_choice_bounds N) in *.
+  set (B := if nov then [] else shm_shuffle_bounds N) in *.
+  set (C := if noc then [] else shm_shuffle_bounds M) in *.
+  assert (E1 : (if nop then O else length (shm_choice_bounds N)) = length A) by (unfold A; destruct nop; reflexivity).
+  assert (E2 : (if nov then O else length (shm_shuffle_bounds N)) = length B) by (unfold B; destruct nov; reflexivity).
+  rewrite E1, E2 in Ha.
+  apply shm_Forall2_split in Hf as [HA HBC]. apply shm_Forall2_split in HBC as [HB HC].
+  inversion Ha; subst fl pm cp. clear Ha. split; [|split].
+  - destruct nop; cbn [flips_valid]; [trivial|]. split; [|apply shm_flips_pm1].
+    unfold len. rewrite shm_flips_length, <- (shm_Forall2_length _ _ _ HA).
+    unfold A, shm_choice_bounds. rewrite repeat_length. lia.
+  - destruct nov; cbn [perm_valid]; [trivial|].
+    apply shm_shuffle_list_perm. rewrite (shm_len_zrange 1 N HN). exact HB.
+  - destruct noc; cbn [perm_valid]; [trivial|].
+    apply shm_shuffle_list_perm. rewrite (shm_len_zrange 0 M HM). exact HC.
+Qed.
+
+(* ------------------------------------------------------------------ *)
+(* E. inversion of the program                                          *)
+(* ------------------------------------------------------------------ *)
+Lemma shm_plan_run rep env argv stdin o N F : shm_plan_of rep env argv stdin = PlanRun o N F ->
+  shm_parse_args env argv = PaOk o /\
+  parse_dimacs true (shm_input_text env o stdin) = DOk N F /\
+  so_nop o && (shm_word <=? N) = false.
+Proof.
+  unfold shm_plan_of. destruct (shm_parse_args env argv) as [o'| | |]; try discriminate.
+  destruct (match so_input o' with Some f => shm_mem f (so_outs o') | None => false end); [discriminate|].
+  destruct (parse_dimacs true (shm_input_text env o' stdin)) as [N' F'|e k] eqn:Ep; [|discriminate].
+  destruct (so_nop o' && (shm_word <=? N')) eqn:Ew; [destruct rep; discriminate|].
+  intros H. inversion H; subst. repeat split; assumption.
+Qed.
+
+(* a run that stops before its draws: outside, a command line error, or (as found only) the OverflowError *)
+Lemma shm_plan_stop rep env argv stdin r : shm_plan_of rep env argv stdin = PlanStop r ->
+  r = ShmOutside \/ r = ShmCliError \/
+  (r = ShmCrash /\ rep = false /\ exists o N F, shm_parse_args env argv = PaOk o /\
+     parse_dimacs true (shm_input_text env o stdin) = DOk N F /\ so_nop o = true /\ shm_word <= N).
+Proof.
+  unfold shm_plan_of. destruct (shm_parse_args env argv) as [o'| | |] eqn:Ea;
+    try (intros H; inversion H; auto; fail).
+  destruct (match so_input o' with Some f => shm_mem f (so_outs o') | None => false end);
+    [intros H; inversion H; auto|].
+  destruct (parse_dimacs true (shm_input_text env o' stdin)) as [N' F'|e k] eqn:Ep;
+    [|intros H; inversion H; auto].
+  destruct (so_nop o' && (shm_word <=? N')) eqn:Ew; [|discriminate].
+  destruct rep; intros H; inversion H; auto.
+  right. right. apply andb_true_iff in Ew as [E1 E2]. repeat split.
+  exists o', N', F'. repeat split; try assumption. lia.
+Qed.
+
+Lemma shm_core rep env argv stdin oracle dest t :
+  cnfshuffle_main_gen rep env argv stdin oracle = ShmOut dest t ->
+  exists o N F rs rest fl pm cp out,
+    shm_plan_of rep env argv stdin = PlanRun o N F /\
+    shm_draws (shm_bounds (so_nop o) (so_nov o) (so_noc o) N (len F)) oracle = DrOk rs rest /\
+    shm_args (so_nop o) (so_nov o) (so_noc o) N (len F) rs = (fl, pm, cp) /\
+    shuffle N F fl pm cp = ShOk N out /\
+    dest = so_output o /\ t = print_dimacs (shm_out_header env o) None N out.
+Proof.
+  unfold cnfshuffle_main_gen, shm_run. destruct (shm_plan_of rep env argv stdin) as [o N F|r] eqn:Ep.
+  - cbn [shm_plan_bounds]. unfold shm_finish.
+    destruct (shm_draws (shm_bounds (so_nop o) (so_nov o) (so_noc o) N (len F)) oracle) as [rs rest| |] eqn:Ed;
+      try discriminate.
+    destruct (shm_args (so_nop o) (so_nov o) (so_noc o) N (len F) rs) as [[fl pm] cp] eqn:Ea.
+    destruct (shuffle N F fl pm cp) as [n out| | |] eqn:Es; try discriminate.
+    intros H. inversion H; subst.
+    destruct (shm_plan_run _ _ _ _ _ _ _ Ep) as (_ & Hp & _).
+    destruct (shm_parse_ok _ _ _ _ Hp) as (HN & HF & _ & _).
+    destruct (shuffle_counts _ _ _ _ _ _ _ HN HF Es) as (-> & _).
+    exists o, N, F, rs, rest, fl, pm, cp, out. repeat split; assumption.
+  - intros ->. apply shm_plan_stop in Ep as [E|[E|[E _]]]; discriminate.
+Qed.
+
+(* whenever all draws are there, Shuffle succeeds: the ValueError branch of shm_finish is dead *)
+Lemma shm_shuffle_succeeds o N F rs rest oracle fl pm cp : 0 <= N ->
+  shm_draws (shm_bounds (so_nop o) (so_nov o) (so_noc o) N (len F)) oracle = DrOk rs rest ->
+  shm_args (so_nop o) (so_nov o) (so_noc o) N (len F) rs = (fl, pm, cp) ->
+  exists n out, shuffle N F fl pm cp = ShOk n out.
+Proof.
+  intros HN Hd Ha. apply shm_draws_spec in Hd as [Hf _].
+  apply (shuffle_validation N F fl pm cp HN).
+  eapply shm_args_valid; try eassumption. apply len_nonneg.
+Qed.
+
+(* ------------------------------------------------------------------ *)
+(* F. the output reads back as a signed renaming of the input          *)
+(* ------------------------------------------------------------------ *)
+Lemma shm_args_fixed nop nov noc N M rs fl pm cp : shm_args nop nov noc N M rs = (fl, pm, cp) ->
+  (nop = true -> fl = ShFixed) /\ (nov = true -> pm = ShFixed) /\ (noc = true -> cp = ShFixed).
+Proof. unfold shm_args. intros H. inversion H. repeat split; intros ->; reflexivity. Qed.
+
+Lemma shm_nth_in_perm perm N i : Permutation perm (zrange 1 (1 + N)) -> (i < Z.to_nat N)%nat -> 0 <= N ->
+  1 <= nth i perm 0 <= N.
+Proof.
+  intros Hp Hi HN. assert (Hl : length perm = Z.to_nat N).
+  { rewrite (Permutation_length Hp). apply shm_len_zrange. exact HN. }
+  assert (Hin : In (nth i perm 0) perm) by (apply nth_In; lia).
+  apply (Permutation_in _ Hp) in Hin. apply sh_in_zrange in Hin. lia.
+Qed.
+
+Theorem shm_is_renaming rep env argv stdin oracle dest t :
+  cnfshuffle_main_gen rep env argv stdin oracle = ShmOut dest t ->
+  exists o N F out flips perm cperm,
+    shm_parse_args env argv = PaOk o /\ dest = so_output o /\
+    parse_dimacs true (shm_input_text env o stdin) = DOk N F /\
+    (forall u, parse_dimacs u t = DOk N out) /\
+    0 <= N /\ lits_in_range N F = true /\ lits_in_range N out = true /\
+    length out = length F /\ Permutation (map (@length Z) F) (map (@length Z) out) /\
+    let sigma := subst_lit flips perm in
+    let sigma' := inv_lit flips perm in
+    signed_map N sigma /\ signed_map N sigma' /\
+    (forall l, inrange N l -> sigma' (sigma l) = l) /\ (forall l, inrange N l -> sigma (sigma' l) = l) /\
+    Permutation cperm (zrange 0 (len F)) /\
+    Permutation out (map (map sigma) F) /\
+    (forall i, (i < length F)%nat -> nth (Z.to_nat (nth i cperm 0)) out [] = map sigma (nth i F [])) /\
+    (forall a, cnf_sat a out = cnf_sat (pull sigma a) F) /\
+    (forall a v, 1 <= v <= N -> pull sigma' (pull sigma a) v = a v) /\
+    (forall a v, 1 <= v <= N -> pull sigma (pull sigma' a) v = a v) /\
+    count_models N out = count_models N F /\
+    (so_nop o = true -> forall l, inrange N l -> (0 < sigma l <-> 0 < l)) /\
+    (so_nov o = true -> forall l, inrange N l -> Z.abs (sigma l) = Z.abs l) /\
+    (so_noc o = true -> out = map (map sigma) F).
+Proof.
+  intros H. apply shm_core in H as (o & N & F & rs & rest & fl & pm & cp & out & Hplan & Hd & Ha & Hs & -> & ->).
+  destruct (shm_plan_run _ _ _ _ _ _ _ Hplan) as (Hargs & Hparse & _).
+  destruct (shm_parse_ok _ _ _ _ Hparse) as (HN & HF & PN & PM).
+  destruct (shuffle_counts _ _ _ _ _ _ _ HN HF Hs) as (_ & Hlen & Hw & Hout).
+  destruct (shuffle_is_signed_renaming _ _ _ _ _ _ _ HN Hs)
+    as (flips & perm & cperm & Cf & Cp & Cc & S1 & S2 & S3 & S4 & Sv & Pc & Po & Pos).
+  cbv zeta in S1, S2, S3, S4, Sv, Po, Pos.
+  exists o, N, F, out, flips, perm, cperm.
+  split; [exact Hargs|]. split; [reflexivity|]. split; [exact Hparse|].
+  split.
+  { intros u. apply dimacs_roundtrip_proved; [apply shm_in_range_valid; assumption|exact PN|].
+    unfold len. rewrite Hlen. exact PM. }
+  do 5 (split; [assumption|]). cbv zeta.
+  do 7 (split; [assumption|]).
+  split. { intros a. rewrite (cnf_sat_permutation a _ _ Po). now apply (pull_cnf a _ N). }
+  split. { intros a v Hv. now apply (pull_inverse a _ _ N). }
+  split. { intros a v Hv. now apply (pull_inverse a _ _ N). }
+  split. { apply (model_count_preserved N F fl pm cp N out HN HF Hs). }
+  destruct (shm_args_fixed _ _ _ _ _ _ _ _ _ Ha) as (Fp & Fv & Fc).
+  destruct (check_flips_some _ _ _ HN Cf) as [Lf Pf].
+  pose proof (check_permutation_some _ _ _ _ HN Cp) as Pp.
+  split; [|split].
+  - (* -p : no polarity flip *)
+    intros Enop. assert (Ef : repeat 1 (Z.to_nat N) = flips) by (rewrite (Fp Enop), check_flips_fixed in Cf; congruence).
+    assert (Pos1 : forall v, 1 <= v <= N -> 1 <= subst_lit flips perm v).
+    { intros v Hv. rewrite (Sv v Hv), <- Ef.
+      assert (Hi : (Z.to_nat (v - 1) < Z.to_nat N)%nat) by lia.
+      rewrite (nth_indep _ 0 1) by (rewrite repeat_length; exact Hi). rewrite nth_repeat.
+      pose proof (shm_nth_in_perm perm N _ Pp Hi HN). lia. }
+    intros l [Hl0 HlN]. destruct (Z.lt_trichotomy l 0) as [Hneg|[Hz|Hpos]]; [|lia|].
+    + assert (Hr : inrange N (- l)) by (split; lia).
+      destruct (S1 (- l) Hr) as [_ Hodd]. rewrite Z.opp_involutive in Hodd.
+      pose proof (Pos1 (- l) ltac:(lia)). lia.
+    + pose proof (Pos1 l ltac:(lia)). lia.
+  - (* -v : no renaming *)
+    intros Enov. assert (Ep : zrange 1 (1 + N) = perm) by (rewrite (Fv Enov), check_permutation_fixed in Cp; congruence).
+    assert (Abs1 : forall v, 1 <= v <= N -> Z.abs (subst_lit flips perm v) = v).
+    { intros v Hv. rewrite (Sv v Hv), <- Ep.
+      assert (Hi : (Z.to_nat (v - 1) < Z.to_nat N)%nat) by lia.
+      rewrite sh_nth_zrange by lia.
+      assert (Hfl : pm1 (nth (Z.to_nat (v - 1)) flips 0)).
+      { rewrite Forall_forall in Pf. apply Pf. apply nth_In. unfold len in Lf. lia. }
+      destruct Hfl as [->| ->]; lia. }
+    intros l [Hl0 HlN]. destruct (Z.lt_trichotomy l 0) as [Hneg|[Hz|Hpos]]; [|lia|].
+    + assert (Hr : inrange N (- l)) by (split; lia).
+      destruct (S1 (- l) Hr) as [_ Hodd]. rewrite Z.opp_involutive in Hodd.
+      pose proof (Abs1 (- l) ltac:(lia)). lia.
+    + pose proof (Abs1 l ltac:(lia)). lia.
+  - (* -c : clauses stay in place *)
+    intros Enoc. assert (Ec : zrange 0 (0 + len F) = cperm) by (rewrite (Fc Enoc), check_permutation_fixed in Cc; congruence).
+    destruct (shuffle_inv _ _ _ _ _ _ _ Hs) as (flips' & perm' & cperm' & Cf' & Cp' & Cc' & Eout & _).
+    assert (flips' = flips) by congruence. assert (perm' = perm) by congruence.
+    assert (cperm' = zrange 0 (0 + len F)) by (rewrite (Fc Enoc), check_permutation_fixed in Cc'; congruence).
+    subst flips' perm' cperm'. rewrite Eout. rewrite <- (sh_len_map (map (subst_lit flips perm)) F). apply place_identity.
+Qed.
+
+(* -p -v -c : no draw is read, the formula is written as it was read *)
+Theorem shm_fixed_identity rep env argv stdin o :
+  shm_parse_args env argv = PaOk o -> so_nop o = true -> so_nov o = true -> so_noc o = true ->
+  forall oracle,
+    cnfshuffle_main_gen rep env argv stdin oracle = cnfshuffle_main_gen rep env argv stdin [] /\
+    forall dest t, cnfshuffle_main_gen rep env argv stdin oracle = ShmOut dest t ->
+      exists N F, parse_dimacs true (shm_input_text env o stdin) = DOk N F /\
+                  t = print_dimacs (shm_out_header env o) None N F /\
+                  forall u, parse_dimacs u t = DOk N F.
+Proof.
+  intros Hargs Ep Ev Ec oracle.
+  assert (Hb : forall p, (forall o' N F, p = PlanRun o' N F -> o' = o) -> shm_plan_bounds p = []).
+  { intros [o' N F|r] Hp; [|reflexivity]. rewrite (Hp o' N F eq_refl). cbn [shm_plan_bounds].
+    unfold shm_bounds. rewrite Ep, Ev, Ec. reflexivity. }
+  assert (Ho : forall o' N F, shm_plan_of rep env argv stdin = PlanRun o' N F -> o' = o).
+  { intros o' N F Hp. apply shm_plan_run in Hp as (Hp & _). rewrite Hargs in Hp. inversion Hp. reflexivity. }
+  split.
+  - unfold cnfshuffle_main_gen, shm_run. destruct (shm_plan_of rep env argv stdin) as [o' N F|r] eqn:Eplan; [|reflexivity].
+    rewrite (Hb _ (fun o1 N1 F1 E => Ho o1 N1 F1 (eq_trans (eq_sym eq_refl) E))).
+    reflexivity.
+  - intros dest t H. apply shm_core in H as (o' & N & F & rs & rest & fl & pm & cp & out & Hplan & Hd & Ha & Hs & -> & ->).
+    pose proof (Ho _ _ _ Hplan) as ->.
+    destruct (shm_plan_run _ _ _ _ _ _ _ Hplan) as (_ & Hparse & _).
+    destruct (shm_parse_ok _ _ _ _ Hparse) as (HN & HF & PN & PM).
+    destruct (shm_args_fixed _ _ _ _ _ _ _ _ _ Ha) as (Fp & Fv & Fc).
+    rewrite (Fp Ep), (Fv Ev), (Fc Ec), (all_fixed_is_identity N F HN HF) in Hs. inversion Hs; subst out.
+    exists N, F. split; [exact Hparse|]. split; [reflexivity|].
+    intros u. apply dimacs_roundtrip_proved; [apply shm_in_range_valid; assumption|exact PN|exact PM].
+Qed.
